@@ -117,8 +117,15 @@ def items_outside_contracts(unit_name, g):
     return out
 
 
-def run_unit(name, factory, canaries=True, rlimit=30):
+# resource limit per unit (Verus --rlimit, deterministic solver work units, not time): the CTS decrypt closures need ~25 of
+# the default 30, so that unit gets head room; a function that exhausts the limit is reported as infrastructure (exit 2)
+RLIMITS = {'cts': 80, 'deps': 50}
+
+
+def run_unit(name, factory, canaries=True, rlimit=None):
     out = {'unit': name, 'infra': [], 'ok': False}
+    if rlimit is None:
+        rlimit = RLIMITS.get(name, 30)
     t0 = time.time()
     try:
         g = U.build(factory())
